@@ -179,87 +179,114 @@ def SpawnWhy (g : Graph) (s : State) (n : String) (p : Int) : Prop :=
   (∃ (q : Int) (u out : String) (c : Child), c ∈ childrenAt g u q out ∧ c.name = n ∧ c.pt = p ∧
       completedB s ⟨q, u, out⟩ = true)
 
-/-- atomic updates of one pooled proxy.  `allow` guards the handling of a submission failure (the
-environment assumption "the job-submit callback reports failure only for a job that is still preparing"
-is `allow x = (x.status == .preparing)`; `fun _ => true` is no assumption). -/
-inductive Upd (g : Graph) (allow : Proxy → Bool) (s : State) : Proxy → Proxy → Prop
-  | refl (x : Proxy) : Upd g allow s x x
-  | setc (x : Proxy) (msg : String) (h1 : msg ≠ "failed") (h2 : msg ≠ "submit-failed") :
-      Upd g allow s x (setComplete g x msg).1
-  | running (x : Proxy) : Upd g allow s x { (x.reset (status := some .running)) with subTry := 0 }
-  | succeeded (x : Proxy) : Upd g allow s x (x.reset (status := some .succeeded))
-  | execRetry (x : Proxy) (h : x.submitNum > 0 ∧ x.execTry < maxExec g x.name) :
-      Upd g allow s x { (x.reset (status := some .waiting)) with execTry := x.execTry + 1, retryWait := true }
-  | failedFinal (x : Proxy) (h : ¬ (x.submitNum > 0 ∧ x.execTry < maxExec g x.name)) :
-      Upd g allow s x
+/-- which atomic actions are admitted: `allow` guards the handling of a submission failure (the environment
+assumption "the job-submit callback reports failure only for a job that is still preparing" is
+`allow x = (x.status == .preparing)`); `msg` the updates driven by a job message, per proxy; `sched` the updates
+made by the scheduler's own sweep (runahead release, queueing, retry wake-up) and launches -/
+structure Kinds where
+  allow : Proxy → Bool
+  msg : Proxy → Bool
+  sched : Bool
+  /-- status-changing message updates (started, succeeded, failed) permitted on this proxy -/
+  live : Proxy → Bool := fun _ => true
+  /-- retries (back to waiting) permitted -/
+  retry : Bool := true
+  /-- removal of an instance that is not finished-and-complete (suicide trigger) permitted -/
+  sui : Bool := true
+
+/-- everything admitted -/
+def Kinds.all : Kinds := ⟨fun _ => true, fun _ => true, true, fun _ => true, true, true⟩
+
+/-- `K` admits at least what `K'` admits -/
+def Kinds.le (K' K : Kinds) : Prop :=
+  (∀ x, K'.allow x = true → K.allow x = true) ∧ (∀ x, K'.msg x = true → K.msg x = true) ∧
+  (K'.sched = true → K.sched = true) ∧ (∀ x, K'.live x = true → K.live x = true) ∧ (K'.retry = true → K.retry = true) ∧
+  (K'.sui = true → K.sui = true)
+
+/-- atomic updates of one pooled proxy -/
+inductive Upd (g : Graph) (K : Kinds) (s : State) : Proxy → Proxy → Prop
+  | refl (x : Proxy) : Upd g K s x x
+  | setc (x : Proxy) (msg : String) (h1 : msg ≠ "failed") (h2 : msg ≠ "submit-failed") (hm : K.msg x = true) :
+      Upd g K s x (setComplete g x msg).1
+  | running (x : Proxy) (hm : K.msg x = true) (hl : K.live x = true) : Upd g K s x { (x.reset (status := some .running)) with subTry := 0 }
+  | succeeded (x : Proxy) (hm : K.msg x = true) (hl : K.live x = true) : Upd g K s x (x.reset (status := some .succeeded))
+  | execRetry (x : Proxy) (h : x.submitNum > 0 ∧ x.execTry < maxExec g x.name) (hm : K.msg x = true)
+      (hl : K.live x = true) (hr : K.retry = true) :
+      Upd g K s x { (x.reset (status := some .waiting)) with execTry := x.execTry + 1, retryWait := true }
+  | failedFinal (x : Proxy) (h : ¬ (x.submitNum > 0 ∧ x.execTry < maxExec g x.name)) (hm : K.msg x = true)
+      (hl : K.live x = true) :
+      Upd g K s x
         (if (x.status != .failed) = true then setComplete g (x.reset (status := some .failed)) "failed"
          else (x.reset (status := some .failed), none)).1
-  | subRetry (x : Proxy) (ha : allow x = true) (h : x.submitNum > 0 ∧ x.subTry < maxSub g x.name) :
-      Upd g allow s x { (x.reset (status := some .waiting)) with subTry := x.subTry + 1, retryWait := true }
-  | subFailedFinal (x : Proxy) (ha : allow x = true) (h : ¬ (x.submitNum > 0 ∧ x.subTry < maxSub g x.name)) :
-      Upd g allow s x
+  | subRetry (x : Proxy) (ha : K.allow x = true) (h : x.submitNum > 0 ∧ x.subTry < maxSub g x.name)
+      (hm : K.msg x = true) (hr : K.retry = true) :
+      Upd g K s x { (x.reset (status := some .waiting)) with subTry := x.subTry + 1, retryWait := true }
+  | subFailedFinal (x : Proxy) (ha : K.allow x = true) (h : ¬ (x.submitNum > 0 ∧ x.subTry < maxSub g x.name))
+      (hm : K.msg x = true) :
+      Upd g K s x
         (if (x.status != .submitFailed) = true then setComplete g (x.reset (status := some .submitFailed)) "submit-failed"
          else (x.reset (status := some .submitFailed), none)).1
-  | submitted (x : Proxy) (h : x.status = .preparing) :
-      Upd g allow s x ((x.reset (status := some .submitted)).reset (queued := some false))
-  | satisfy (x : Proxy) (a : Atom) (h : justB s a = true) : Upd g allow s x (x.satisfyMe a)
-  | release (x : Proxy) : Upd g allow s x (x.reset (runahead := some false))
-  | queue (x : Proxy) (h : (!x.queued && !x.runahead && x.isReadyToRun) = true) :
-      Upd g allow s x (x.reset (queued := some true))
-  | unwait (x : Proxy) (h : (x.status == .waiting && !x.queued && !x.runahead) = true) :
-      Upd g allow s x { x with retryWait := false }
+  | submitted (x : Proxy) (h : x.status = .preparing) (hm : K.msg x = true) :
+      Upd g K s x ((x.reset (status := some .submitted)).reset (queued := some false))
+  | satisfy (x : Proxy) (a : Atom) (h : justB s a = true) : Upd g K s x (x.satisfyMe a)
+  | release (x : Proxy) (hs : K.sched = true) : Upd g K s x (x.reset (runahead := some false))
+  | queue (x : Proxy) (h : (!x.queued && !x.runahead && x.isReadyToRun) = true) (hs : K.sched = true) :
+      Upd g K s x (x.reset (queued := some true))
+  | unwait (x : Proxy) (h : (x.status == .waiting && !x.queued && !x.runahead) = true) (hs : K.sched = true) :
+      Upd g K s x { x with retryWait := false }
 
 /-- the tracked components other than the pool are unchanged -/
 def Same (s s' : State) : Prop := s'.hist = s.hist ∧ s'.absDone = s.absDone ∧ s'.launched = s.launched
 
 theorem Same.rfl' (s : State) : Same s s := ⟨rfl, rfl, rfl⟩
 
-inductive Act (g : Graph) (allow : Proxy → Bool) : State → State → Prop
-  | frame {s s' : State} (hp : s'.pool = s.pool) (hs : Same s s') : Act g allow s s'
-  | upd {s s' : State} (x y : Proxy) (hg : s.get? y.pt y.name = some x) (hu : Upd g allow s x y)
-      (hp : s'.pool = (s.put y).pool) (hs : Same s s') : Act g allow s s'
+inductive Act (g : Graph) (K : Kinds) : State → State → Prop
+  | frame {s s' : State} (hp : s'.pool = s.pool) (hs : Same s s') : Act g K s s'
+  | upd {s s' : State} (x y : Proxy) (hg : s.get? y.pt y.name = some x) (hu : Upd g K s x y)
+      (hp : s'.pool = (s.put y).pool) (hs : Same s s') : Act g K s s'
   | launch {s s' : State} (x : Proxy) (hg : s.get? x.pt x.name = some x) (hq : x.queued = true)
       (hp : s'.pool = (s.put (launchOf x)).pool) (hh : s'.hist = s.hist) (ha : s'.absDone = s.absDone)
-      (hl : s'.launched = s.launched ++ [(x.pt, x.name, x.submitNum + 1)]) : Act g allow s s'
+      (hl : s'.launched = s.launched ++ [(x.pt, x.name, x.submitNum + 1)]) (hs : K.sched = true) : Act g K s s'
   | spawn {s s' : State} (y0 y : Proxy) (hg : s.get? y.pt y.name = none)
       (hsp : spawnTask g s y.name y.pt = some y0)
       (hy : y = y0 ∨ ∃ a, justB s a = true ∧ y = y0.satisfyMe a)
       (hw : SpawnWhy g s y.name y.pt)
-      (hp : s'.pool = s.pool ++ [y]) (hs : Same s s') : Act g allow s s'
+      (hp : s'.pool = s.pool ++ [y]) (hs : Same s s') : Act g K s s'
   | remove {s s' : State} (x : Proxy) (hg : s.get? x.pt x.name = some x)
       (hp : s'.pool = s.pool.filter (fun y => !(y.pt == x.pt && y.name == x.name)))
       (hh : s'.hist = s.hist ++ [⟨x.pt, x.name, x.status, x.submitNum, x.done⟩])
-      (ha : s'.absDone = s.absDone) (hl : s'.launched = s.launched) : Act g allow s s'
+      (ha : s'.absDone = s.absDone) (hl : s'.launched = s.launched)
+      (hr : histFinal g ⟨x.pt, x.name, x.status, x.submitNum, x.done⟩ = true ∨ K.sui = true) : Act g K s s'
   | absAdd {s s' : State} (a : Atom) (hc : completedB s a = true) (hp : s'.pool = s.pool)
       (hh : s'.hist = s.hist) (ha : s'.absDone = s.absDone ++ [a]) (hl : s'.launched = s.launched) :
-      Act g allow s s'
+      Act g K s s'
   | clearUpd {s s' : State} (hp : s'.pool = s.pool.map fun x => { x with upd := false }) (hs : Same s s') :
-      Act g allow s s'
+      Act g K s s'
 
-inductive Steps (g : Graph) (allow : Proxy → Bool) : State → State → Prop
-  | refl (s : State) : Steps g allow s s
-  | tail {s s' s'' : State} : Steps g allow s s' → Act g allow s' s'' → Steps g allow s s''
+inductive Steps (g : Graph) (K : Kinds) : State → State → Prop
+  | refl (s : State) : Steps g K s s
+  | tail {s s' s'' : State} : Steps g K s s' → Act g K s' s'' → Steps g K s s''
 
-theorem Steps.trans {g : Graph} {allow : Proxy → Bool} {a b c : State}
-    (h1 : Steps g allow a b) (h2 : Steps g allow b c) : Steps g allow a c := by
+theorem Steps.trans {g : Graph} {K : Kinds} {a b c : State}
+    (h1 : Steps g K a b) (h2 : Steps g K b c) : Steps g K a c := by
   induction h2 with
   | refl => exact h1
   | tail _ hact ih => exact Steps.tail ih hact
 
-theorem Steps.single {g : Graph} {allow : Proxy → Bool} {a b : State} (h : Act g allow a b) :
-    Steps g allow a b := Steps.tail (Steps.refl a) h
+theorem Steps.single {g : Graph} {K : Kinds} {a b : State} (h : Act g K a b) :
+    Steps g K a b := Steps.tail (Steps.refl a) h
 
 /-- a property preserved by every action is preserved by every sequence of actions -/
-theorem Steps.inv {g : Graph} {allow : Proxy → Bool} (P : State → Prop)
-    (hact : ∀ s s', P s → Act g allow s s' → P s') {a b : State} (h : Steps g allow a b) (ha : P a) : P b := by
+theorem Steps.inv {g : Graph} {K : Kinds} (P : State → Prop)
+    (hact : ∀ s s', P s → Act g K s s' → P s') {a b : State} (h : Steps g K a b) (ha : P a) : P b := by
   induction h with
   | refl => exact ha
   | tail _ hact' ih => exact hact _ _ ih hact'
 
-theorem steps_foldl {g : Graph} {allow : Proxy → Bool} {α : Type} (P : State → Prop)
-    (hP : ∀ s s', P s → Act g allow s s' → P s')
-    (f : State → α → State) (hf : ∀ s a, P s → Steps g allow s (f s a)) :
-    ∀ (l : List α) (s : State), P s → Steps g allow s (l.foldl f s) := by
+theorem steps_foldl {g : Graph} {K : Kinds} {α : Type} (P : State → Prop)
+    (hP : ∀ s s', P s → Act g K s s' → P s')
+    (f : State → α → State) (hf : ∀ s a, P s → Steps g K s (f s a)) :
+    ∀ (l : List α) (s : State), P s → Steps g K s (l.foldl f s) := by
   intro l; induction l with
   | nil => intro s _; exact Steps.refl s
   | cons a l ih =>
@@ -475,7 +502,7 @@ theorem setComplete_mem (g : Graph) (x : Proxy) (m : String) (h : hasOutput g x 
   · rw [h'.1]; exact h'.2 h
   · rw [h'.2.2.1]; simp
 
-theorem upd_key {g : Graph} {allow : Proxy → Bool} {s : State} {x y : Proxy} (h : Upd g allow s x y) :
+theorem upd_key {g : Graph} {K : Kinds} {s : State} {x y : Proxy} (h : Upd g K s x y) :
     y.pt = x.pt ∧ y.name = x.name := by
   cases h with
   | refl => exact ⟨rfl, rfl⟩
@@ -491,7 +518,7 @@ theorem upd_key {g : Graph} {allow : Proxy → Bool} {s : State} {x y : Proxy} (
   | satisfy => exact ⟨rfl, rfl⟩
   | _ => simp
 
-theorem upd_done {g : Graph} {allow : Proxy → Bool} {s : State} {x y : Proxy} (h : Upd g allow s x y) :
+theorem upd_done {g : Graph} {K : Kinds} {s : State} {x y : Proxy} (h : Upd g K s x y) :
     ∀ o ∈ x.done, o ∈ y.done := by
   intro o ho
   cases h with
@@ -512,8 +539,8 @@ theorem upd_done {g : Graph} {allow : Proxy → Bool} {s : State} {x y : Proxy} 
 def sdOK (g : Graph) (st : Status) (n : String) (done : List String) : Prop :=
   (g.task? n).isSome → (st = .failed → "failed" ∈ done) ∧ (st = .submitFailed → "submit-failed" ∈ done)
 
-theorem upd_sd {g : Graph} (hwf : g.wf = true) {allow : Proxy → Bool} {s : State} {x y : Proxy}
-    (h : Upd g allow s x y) (hx : sdOK g x.status x.name x.done) : sdOK g y.status y.name y.done := by
+theorem upd_sd {g : Graph} (hwf : g.wf = true) {K : Kinds} {s : State} {x y : Proxy}
+    (h : Upd g K s x y) (hx : sdOK g x.status x.name x.done) : sdOK g y.status y.name y.done := by
   have hk := upd_key h
   have hd := upd_done h
   intro ht
@@ -565,6 +592,7 @@ structure RInv (g : Graph) (s : State) : Prop where
   nodup : NoDup s
   sdPool : ∀ x ∈ s.pool, sdOK g x.status x.name x.done
   sdHist : ∀ h ∈ s.hist, sdOK g h.status h.name h.done
+  nosui : g.noSui = true → ∀ x ∈ s.pool, x.sui = []
 
 theorem nodup_of_pool_keys {s s' : State} (h : keys s' = keys s) (hn : NoDup s) : NoDup s' := by
   unfold NoDup; rw [h]; exact hn
@@ -605,8 +633,9 @@ theorem spawned_spec {g : Graph} {s : State} {y0 y : Proxy}
   · exact Or.inl ⟨hl, hst, h1⟩
   · exact Or.inr ⟨hr, hl, hne, h1⟩
 
-theorem rinv_act {g : Graph} (hwf : g.wf = true) {allow : Proxy → Bool} {s s' : State}
-    (hi : RInv g s) (ha : Act g allow s s') : RInv g s' := by
+theorem rinv3_act {g : Graph} (hwf : g.wf = true) {K : Kinds} {s s' : State}
+    (hi : RInv g s) (ha : Act g K s s') :
+    NoDup s' ∧ (∀ x ∈ s'.pool, sdOK g x.status x.name x.done) ∧ (∀ h ∈ s'.hist, sdOK g h.status h.name h.done) := by
   cases ha with
   | frame hp hs =>
     exact ⟨nodup_of_pool_keys (keys_of_pool hp) hi.nodup, by rw [hp]; exact hi.sdPool, by rw [hs.1]; exact hi.sdHist⟩
@@ -673,8 +702,105 @@ theorem rinv_act {g : Graph} (hwf : g.wf = true) {allow : Proxy → Bool} {s s' 
     obtain ⟨w, hw, rfl⟩ := List.mem_map.mp hz
     exact hi.sdPool w hw
 
-theorem rinv_steps {g : Graph} (hwf : g.wf = true) {allow : Proxy → Bool} {s s' : State}
-    (h : Steps g allow s s') (hi : RInv g s) : RInv g s' :=
+theorem inst?_mem' {t : TaskDefn} {p : Int} {d : InstDef} (h : t.inst? p = some d) : (p, d) ∈ t.insts := by
+  unfold TaskDefn.inst? at h
+  simp only [Option.map_eq_some_iff] at h
+  obtain ⟨pd, hf, hd⟩ := h
+  have hm := List.mem_of_find?_eq_some hf
+  have hp := List.find?_some hf
+  simp only [beq_iff_eq] at hp
+  have : pd = (p, d) := by rw [← hp, ← hd]
+  rw [← this]; exact hm
+
+theorem upd_sui {g : Graph} {K : Kinds} {s : State} {x y : Proxy} (h : Upd g K s x y) (hx : x.sui = []) :
+    y.sui = [] := by
+  cases h with
+  | refl => exact hx
+  | setc msg =>
+    rcases setComplete_spec g x msg with h | h
+    · rw [h.1]; exact hx
+    · rw [h.2.2.1]; exact hx
+  | failedFinal =>
+    split
+    · rcases setComplete_spec g (x.reset (status := some .failed)) "failed" with h | h
+      · rw [h.1]; simpa using hx
+      · rw [h.2.2.1]; simpa using hx
+    · simpa using hx
+  | subFailedFinal =>
+    split
+    · rcases setComplete_spec g (x.reset (status := some .submitFailed)) "submit-failed" with h | h
+      · rw [h.1]; simpa using hx
+      · rw [h.2.2.1]; simpa using hx
+    · simpa using hx
+  | satisfy a => show x.sui.map (·.satisfy a) = []; rw [hx]; rfl
+  | unwait => exact hx
+  | _ => simpa using hx
+
+theorem sui_foldl_satisfyMe (l : List Atom) : ∀ x : Proxy, x.sui = [] →
+    (l.foldl (fun z a => z.satisfyMe a) x).sui = [] := by
+  induction l with
+  | nil => intro x h; exact h
+  | cons a l ih =>
+    intro x h
+    simp only [List.foldl_cons]
+    apply ih
+    show x.sui.map (·.satisfy a) = []
+    rw [h]; rfl
+
+theorem nosui_act {g : Graph} {K : Kinds} {s s' : State} (hg : g.noSui = true)
+    (hi : ∀ x ∈ s.pool, x.sui = []) (ha : Act g K s s') : ∀ x ∈ s'.pool, x.sui = [] := by
+  cases ha with
+  | frame hp hs => rw [hp]; exact hi
+  | absAdd a hc hp hh ha' hl => rw [hp]; exact hi
+  | clearUpd hp hs =>
+    intro z hz
+    rw [hp] at hz
+    obtain ⟨w, hw, rfl⟩ := List.mem_map.mp hz
+    exact hi w hw
+  | upd x y hgt hu hp hs =>
+    intro z hz
+    rw [hp] at hz
+    rcases mem_put hz with rfl | hz
+    · exact upd_sui hu (hi x (get?_some_spec hgt).1)
+    · exact hi z hz
+  | launch x hgt hq hp hh ha' hl hs =>
+    intro z hz
+    rw [hp] at hz
+    rcases mem_put hz with rfl | hz
+    · simpa using hi x (get?_some_spec hgt).1
+    · exact hi z hz
+  | remove x hgt hp hh ha' hl hr => intro z hz; rw [hp] at hz; exact hi z (List.mem_filter.mp hz).1
+  | spawn y0 y hgt hsp hy hw hp hs =>
+    intro z hz
+    rw [hp] at hz
+    rcases List.mem_append.mp hz with hz | hz
+    · exact hi z hz
+    · simp only [List.mem_singleton] at hz
+      subst hz
+      obtain ⟨x0, y1, hm, hrev, hy0⟩ := spawnTask_spec hsp
+      obtain ⟨t, d, h1, h2, _, _, hx0⟩ := mkProxy_spec hm
+      have hd : d.sui = [] := by
+        unfold Graph.noSui at hg
+        have := List.all_eq_true.mp (List.all_eq_true.mp hg t (task?_mem h1).1) _ (inst?_mem' h2)
+        simpa using this
+      have hy1 : y1.sui = [] := by
+        rcases hrev with ⟨_, _, rfl⟩ | ⟨hr, _, _, rfl⟩ <;> (subst hx0; exact hd)
+      have hy0' : y0.sui = [] := by
+        rcases hy0 with rfl | rfl
+        · exact hy1
+        · exact sui_foldl_satisfyMe _ _ hy1
+      rcases hy with rfl | ⟨a, _, rfl⟩
+      · exact hy0'
+      · show y0.sui.map (·.satisfy a) = []
+        rw [hy0']; rfl
+
+theorem rinv_act {g : Graph} (hwf : g.wf = true) {K : Kinds} {s s' : State}
+    (hi : RInv g s) (ha : Act g K s s') : RInv g s' :=
+  have h := rinv3_act hwf hi ha
+  ⟨h.1, h.2.1, h.2.2, fun hg => nosui_act hg (hi.nosui hg) ha⟩
+
+theorem rinv_steps {g : Graph} (hwf : g.wf = true) {K : Kinds} {s s' : State}
+    (h : Steps g K s s') (hi : RInv g s) : RInv g s' :=
   Steps.inv (RInv g) (fun _ _ hi ha => rinv_act hwf hi ha) h hi
 
 
@@ -688,8 +814,8 @@ theorem completedB_iff (s : State) (a : Atom) :
   simp only [Bool.or_eq_true, List.any_eq_true, Bool.and_eq_true, beq_iff_eq, List.contains_iff_mem,
     and_assoc]
 
-theorem completedB_act {g : Graph} {allow : Proxy → Bool} {s s' : State} (hn : NoDup s)
-    (ha : Act g allow s s') {a : Atom} (hc : completedB s a = true) : completedB s' a = true := by
+theorem completedB_act {g : Graph} {K : Kinds} {s s' : State} (hn : NoDup s)
+    (ha : Act g K s s') {a : Atom} (hc : completedB s a = true) : completedB s' a = true := by
   rw [completedB_iff] at hc ⊢
   -- an update of the proxy under one key by a proxy with at least the same outputs
   have hput : ∀ (x y : Proxy), s.get? y.pt y.name = some x → (∀ o ∈ x.done, o ∈ y.done) →
@@ -753,14 +879,14 @@ theorem completedB_act {g : Graph} {allow : Proxy → Bool} {s s' : State} (hn :
     · exact Or.inl ⟨{ z with upd := false }, List.mem_map.mpr ⟨z, hz, rfl⟩, h⟩
     · exact Or.inr hc
 
-theorem completedB_steps {g : Graph} (hwf : g.wf = true) {allow : Proxy → Bool} {s s' : State}
-    (h : Steps g allow s s') (hi : RInv g s) {a : Atom} (hc : completedB s a = true) : completedB s' a = true := by
+theorem completedB_steps {g : Graph} (hwf : g.wf = true) {K : Kinds} {s s' : State}
+    (h : Steps g K s s') (hi : RInv g s) {a : Atom} (hc : completedB s a = true) : completedB s' a = true := by
   have := Steps.inv (fun st => RInv g st ∧ completedB st a = true)
     (fun _ _ hi ha => ⟨rinv_act hwf hi.1 ha, completedB_act hi.1.nodup ha hi.2⟩) h ⟨hi, hc⟩
   exact this.2
 
 
-theorem absDone_act {g : Graph} {allow : Proxy → Bool} {s s' : State} (ha : Act g allow s s') {a : Atom}
+theorem absDone_act {g : Graph} {K : Kinds} {s s' : State} (ha : Act g K s s') {a : Atom}
     (h : a ∈ s.absDone) : a ∈ s'.absDone := by
   cases ha with
   | frame hp hs => rw [hs.2.1]; exact h
@@ -771,18 +897,219 @@ theorem absDone_act {g : Graph} {allow : Proxy → Bool} {s s' : State} (ha : Ac
   | absAdd a' hc' hp hh ha hl => rw [ha]; exact List.mem_append_left _ h
   | clearUpd hp hs => rw [hs.2.1]; exact h
 
-theorem justB_act {g : Graph} {allow : Proxy → Bool} {s s' : State} (hn : NoDup s)
-    (ha : Act g allow s s') {a : Atom} (hj : justB s a = true) : justB s' a = true := by
+theorem justB_act {g : Graph} {K : Kinds} {s s' : State} (hn : NoDup s)
+    (ha : Act g K s s') {a : Atom} (hj : justB s a = true) : justB s' a = true := by
   unfold justB at *
   simp only [Bool.or_eq_true, List.contains_iff_mem] at *
   rcases hj with hj | hj
   · exact Or.inl (absDone_act ha hj)
   · exact Or.inr (completedB_act hn ha hj)
 
-theorem justB_steps {g : Graph} (hwf : g.wf = true) {allow : Proxy → Bool} {s s' : State}
-    (h : Steps g allow s s') (hi : RInv g s) {a : Atom} (hc : justB s a = true) : justB s' a = true := by
+theorem justB_steps {g : Graph} (hwf : g.wf = true) {K : Kinds} {s s' : State}
+    (h : Steps g K s s') (hi : RInv g s) {a : Atom} (hc : justB s a = true) : justB s' a = true := by
   have := Steps.inv (fun st => RInv g st ∧ justB st a = true)
     (fun _ _ hi ha => ⟨rinv_act hwf hi.1 ha, justB_act hi.1.nodup ha hi.2⟩) h ⟨hi, hc⟩
   exact this.2
+
+
+/-! ### Monotonicity in the admitted kinds -/
+
+theorem Upd.mono {g : Graph} {K' K : Kinds} (hle : K'.le K) {s : State} {x y : Proxy} (h : Upd g K' s x y) :
+    Upd g K s x y := by
+  obtain ⟨h1, h2, h3, h4, h5, _⟩ := hle
+  cases h with
+  | refl => exact Upd.refl x
+  | setc msg a b hm => exact Upd.setc x msg a b (h2 _ hm)
+  | running hm hl => exact Upd.running x (h2 _ hm) (h4 _ hl)
+  | succeeded hm hl => exact Upd.succeeded x (h2 _ hm) (h4 _ hl)
+  | execRetry h hm hl hr => exact Upd.execRetry x h (h2 _ hm) (h4 _ hl) (h5 hr)
+  | failedFinal h hm hl => exact Upd.failedFinal x h (h2 _ hm) (h4 _ hl)
+  | subRetry ha h hm hr => exact Upd.subRetry x (h1 _ ha) h (h2 _ hm) (h5 hr)
+  | subFailedFinal ha h hm => exact Upd.subFailedFinal x (h1 _ ha) h (h2 _ hm)
+  | submitted h hm => exact Upd.submitted x h (h2 _ hm)
+  | satisfy a h => exact Upd.satisfy x a h
+  | release hs => exact Upd.release x (h3 hs)
+  | queue h hs => exact Upd.queue x h (h3 hs)
+  | unwait h hs => exact Upd.unwait x h (h3 hs)
+
+theorem Act.mono {g : Graph} {K' K : Kinds} (hle : K'.le K) {s s' : State} (h : Act g K' s s') : Act g K s s' := by
+  cases h with
+  | frame hp hs => exact Act.frame hp hs
+  | upd x y hg hu hp hs => exact Act.upd x y hg (hu.mono hle) hp hs
+  | launch x hg hq hp hh ha hl hs => exact Act.launch x hg hq hp hh ha hl (hle.2.2.1 hs)
+  | spawn y0 y hg hsp hy hw hp hs => exact Act.spawn y0 y hg hsp hy hw hp hs
+  | remove x hg hp hh ha hl hr =>
+    exact Act.remove x hg hp hh ha hl (hr.elim Or.inl (fun h => Or.inr (hle.2.2.2.2.2 h)))
+  | absAdd a hc hp hh ha hl => exact Act.absAdd a hc hp hh ha hl
+  | clearUpd hp hs => exact Act.clearUpd hp hs
+
+theorem Steps.mono {g : Graph} {K' K : Kinds} (hle : K'.le K) {s s' : State} (h : Steps g K' s s') :
+    Steps g K s s' := by
+  induction h with
+  | refl => exact Steps.refl _
+  | tail _ hact ih => exact Steps.tail ih (hact.mono hle)
+
+
+/-! ### Look-ups after a removal -/
+
+theorem get?_filter_self {s t : State} {p : Int} {n : String}
+    (h : t.pool = s.pool.filter (fun y => !(y.pt == p && y.name == n))) : t.get? p n = none := by
+  unfold State.get?
+  rw [h, List.find?_filter]
+  apply List.find?_eq_none.mpr
+  intro x _
+  simp only [Bool.not_eq_true', Bool.and_eq_true, beq_iff_eq, decide_eq_true_eq, not_and,
+    Bool.and_eq_false_iff, beq_eq_false_iff_ne, ne_eq]
+  intro h1 h2 h3
+  rcases h1 with h1 | h1
+  · exact h1 h2
+  · exact h1 h3
+
+theorem get?_filter_other {s t : State} {p q : Int} {n m : String}
+    (ht : t.pool = s.pool.filter (fun y => !(y.pt == p && y.name == n))) (h : ¬ (q = p ∧ m = n)) :
+    t.get? q m = s.get? q m := by
+  unfold State.get?
+  rw [ht, List.find?_filter]
+  congr 1
+  funext x
+  by_cases hx : (x.pt == q && x.name == m) = true
+  · have hx' := hx
+    simp only [Bool.and_eq_true, beq_iff_eq] at hx'
+    have : ¬ (x.pt = p ∧ x.name = n) := by rw [hx'.1, hx'.2]; exact h
+    simp only [hx, and_true]
+    simp only [Bool.not_eq_true', Bool.and_eq_false_iff, beq_eq_false_iff_ne, ne_eq, decide_eq_true_eq]
+    by_cases h1 : x.pt = p
+    · exact Or.inr (fun h2 => this ⟨h1, h2⟩)
+    · exact Or.inl h1
+  · simp only [Bool.not_eq_true] at hx
+    simp [hx]
+
+theorem lastHist_append_self {s t : State} {h : Hist} (ht : t.hist = s.hist ++ [h]) :
+    lastHist t h.name h.pt = some h := by
+  unfold lastHist
+  rw [ht]
+  simp only [List.filter_append]
+  have : List.filter (fun h' => h'.pt == h.pt && h'.name == h.name) [h] = [h] := by simp
+  rw [this, List.getLast?_concat]
+
+theorem lastHist_append_other {s t : State} {h : Hist} (ht : t.hist = s.hist ++ [h]) {p : Int} {n : String}
+    (hk : ¬ (h.pt = p ∧ h.name = n)) : lastHist t n p = lastHist s n p := by
+  unfold lastHist
+  rw [ht]
+  simp only [List.filter_append]
+  have : List.filter (fun h' => h'.pt == p && h'.name == n) [h] = [] := by
+    simp only [List.filter_cons, List.filter_nil]
+    split
+    · rename_i hb
+      simp only [Bool.and_eq_true, beq_iff_eq] at hb
+      exact absurd hb hk
+    · rfl
+  rw [this, List.append_nil]
+
+
+theorem get?_of_pool_eq' {s s' : State} (h : s'.pool = s.pool) (p : Int) (n : String) : s'.get? p n = s.get? p n := by
+  unfold State.get?; rw [h]
+
+theorem lastHist_of_hist_eq {s s' : State} (h : s'.hist = s.hist) (n : String) (p : Int) :
+    lastHist s' n p = lastHist s n p := by
+  unfold lastHist; rw [h]
+
+/-! ### An instance that is not waiting stays so unless it is retried -/
+
+/-- the pooled proxy of `(p, n)` is not waiting; if the instance is not pooled, its latest history record is
+not waiting (so a revival is not waiting either) -/
+def NWk (p : Int) (n : String) (s : State) : Prop :=
+  match s.get? p n with
+  | some x => x.status ≠ .waiting
+  | none => ∃ hr, lastHist s n p = some hr ∧ hr.status ≠ .waiting
+
+theorem upd_status_nw {g : Graph} {K : Kinds} (hK : K.retry = false) {s : State} {x y : Proxy}
+    (h : Upd g K s x y) (hx : x.status ≠ .waiting) : y.status ≠ .waiting := by
+  cases h with
+  | refl => exact hx
+  | setc msg => rw [setComplete_status]; exact hx
+  | running => simp
+  | succeeded => simp
+  | execRetry _ _ _ hr => rw [hK] at hr; cases hr
+  | failedFinal =>
+    split
+    · rw [setComplete_status]; simp
+    · simp
+  | subRetry _ _ _ hr => rw [hK] at hr; cases hr
+  | subFailedFinal =>
+    split
+    · rw [setComplete_status]; simp
+    · simp
+  | submitted => simp
+  | satisfy => exact hx
+  | release => simpa using hx
+  | queue => simpa using hx
+  | unwait => exact hx
+
+theorem nwk_act {g : Graph} {K : Kinds} (hK : K.retry = false) {p : Int} {n : String} {s s' : State}
+    (h : NWk p n s) (ha : Act g K s s') : NWk p n s' := by
+  unfold NWk at *
+  cases ha with
+  | frame hp hs => rw [get?_of_pool_eq' hp, lastHist_of_hist_eq hs.1]; exact h
+  | absAdd a hc hp hh ha' hl => rw [get?_of_pool_eq' hp, lastHist_of_hist_eq hh]; exact h
+  | clearUpd hp hs =>
+    rw [lastHist_of_hist_eq hs.1]
+    have : s'.get? p n = (s.get? p n).map fun x => { x with upd := false } := by
+      unfold State.get?
+      rw [hp, List.find?_map]
+      rfl
+    rw [this]
+    cases hg : s.get? p n with
+    | none => rw [hg] at h; exact h
+    | some x => rw [hg] at h; exact h
+  | upd x y hg hu hp hs =>
+    rw [get?_of_pool_eq' (s := s.put y) hp, lastHist_of_hist_eq hs.1]
+    by_cases hk : y.pt = p ∧ y.name = n
+    · rw [← hk.1, ← hk.2, get?_put_same hg]
+      rw [← hk.1, ← hk.2, hg] at h
+      exact upd_status_nw hK hu h
+    · rw [get?_put_other hk]; exact h
+  | launch x hg hq hp hh ha' hl hs =>
+    rw [get?_of_pool_eq' (s := s.put (launchOf x)) hp, lastHist_of_hist_eq hh]
+    by_cases hk : (launchOf x).pt = p ∧ (launchOf x).name = n
+    · rw [← hk.1, ← hk.2, get?_put_same (x := x) (by simpa using hg)]
+      simp
+    · rw [get?_put_other hk]; exact h
+  | spawn y0 y hg hsp hy hw hp hs =>
+    rw [get?_of_pool_eq' (s := { s with pool := s.pool ++ [y] }) hp, lastHist_of_hist_eq hs.1]
+    cases hgp : s.get? p n with
+    | some z => rw [get?_append_of_some _ hgp]; rw [hgp] at h; exact h
+    | none =>
+      rw [hgp] at h
+      rw [get?_append_of_none y hgp]
+      by_cases hk : (y.pt == p && y.name == n) = true
+      · simp only [hk, if_true]
+        simp only [Bool.and_eq_true, beq_iff_eq] at hk
+        obtain ⟨x0, hm, hc⟩ := spawned_spec hsp hy
+        rw [hk.1, hk.2] at hc
+        obtain ⟨hr, hl, hne⟩ := h
+        rcases hc with ⟨hl', _, _⟩ | ⟨hr', hl', _, hc⟩
+        · rw [hl] at hl'; cases hl'
+        · rw [hl] at hl'
+          simp only [Proxy.core, Prod.mk.injEq] at hc
+          rw [hc.2.2.1, ← Option.some.inj hl']
+          exact hne
+      · simp only [hk, Bool.false_eq_true, if_false]; exact h
+  | remove x hg hp hh ha' hl =>
+    by_cases hk : p = x.pt ∧ n = x.name
+    · rw [hk.1, hk.2, get?_filter_self hp]
+      have h2 := lastHist_append_self (h := ⟨x.pt, x.name, x.status, x.submitNum, x.done⟩) hh
+      simp only at h2
+      refine ⟨_, h2, ?_⟩
+      rw [hk.1, hk.2, hg] at h
+      exact h
+    · have h2 := lastHist_append_other (h := ⟨x.pt, x.name, x.status, x.submitNum, x.done⟩) hh (p := p) (n := n)
+        (by intro h'; exact hk ⟨h'.1.symm, h'.2.symm⟩)
+      rw [get?_filter_other hp hk, h2]
+      exact h
+
+theorem nwk_steps {g : Graph} {K : Kinds} (hK : K.retry = false) {p : Int} {n : String} {s s' : State}
+    (hs : Steps g K s s') (h : NWk p n s) : NWk p n s' :=
+  Steps.inv (NWk p n) (fun _ _ h ha => nwk_act hK h ha) hs h
 
 end CylcModel.Sched
